@@ -19,25 +19,25 @@ unsigned G_mulg_calls;
 #endif
 
 void sm2_z256_point_mul_generator(SM2_Z256_POINT *R, const sm2_z256_t k)
-REQUIRES(W_OK(R, sizeof(*R)) && R_OK(k, 32))
+REQUIRES(WR_OK(R, sizeof(*R)) && RD_OK(k, 32))
 ASSIGNS(OBJ_UPTO((uint8_t *)R, sizeof(*R)), G_mulg_calls)
 ENSURES(G_mulg_calls == OLD(G_mulg_calls) + 1)
 ;
 
 void sm2_z256_point_mul(SM2_Z256_POINT *R, const sm2_z256_t k, const SM2_Z256_POINT *P)
-REQUIRES(W_OK(R, sizeof(*R)) && R_OK(k, 32) && R_OK(P, sizeof(*P)))
+REQUIRES(WR_OK(R, sizeof(*R)) && RD_OK(k, 32) && RD_OK(P, sizeof(*P)))
 ASSIGNS(OBJ_UPTO((uint8_t *)R, sizeof(*R)))
 ;
 
 int sm2_z256_point_equ(const SM2_Z256_POINT *P, const SM2_Z256_POINT *Q)
-REQUIRES(R_OK(P, sizeof(*P)) && R_OK(Q, sizeof(*Q)))
+REQUIRES(RD_OK(P, sizeof(*P)) && RD_OK(Q, sizeof(*Q)))
 ASSIGNS()
 ENSURES(RET == 1 || RET == 0)
 ;
 
 /* C12: SM2 private scalars are accepted only in [1, n-2] */
 int sm2_key_set_private_key(SM2_KEY *key, const sm2_z256_t private_key)
-REQUIRES((key == NULL || W_OK(key, sizeof(*key))) && (private_key == NULL || R_OK(private_key, 32)))
+REQUIRES((key == NULL || WR_OK(key, sizeof(*key))) && (private_key == NULL || RD_OK(private_key, 32)))
 REQUIRES(key == NULL || private_key == NULL || SEPARATE(key, private_key))
 ASSIGNS(key != NULL: OBJ_UPTO((uint8_t *)key, sizeof(*key)); G_mulg_calls)
 ENSURES(RET == 1 || RET == -1)
@@ -46,7 +46,7 @@ ENSURES(RET == 1 IMPLIES VAL4(key->private_key) == VAL4(private_key) && G_mulg_c
 ;
 
 int sm2_public_key_equ(const SM2_KEY *sm2_key, const SM2_KEY *pub_key)
-REQUIRES(R_OK(sm2_key, sizeof(*sm2_key)) && R_OK(pub_key, sizeof(*pub_key)))
+REQUIRES(RD_OK(sm2_key, sizeof(*sm2_key)) && RD_OK(pub_key, sizeof(*pub_key)))
 ASSIGNS(G_pkequ_last, G_pkequ_calls)
 ENSURES(RET == 1 || RET == 0)
 ENSURES(G_pkequ_last == RET && G_pkequ_calls == OLD(G_pkequ_calls) + 1)
@@ -55,7 +55,7 @@ ENSURES(G_pkequ_last == RET && G_pkequ_calls == OLD(G_pkequ_calls) + 1)
 /* recording variant of the point importer's contract, used where sm2_z256_point_from_octets is REPLACED */
 #ifdef CONTRACT_FROM_OCTETS_RECORDING
 int sm2_z256_point_from_octets(SM2_Z256_POINT *P, const uint8_t *in, size_t inlen)
-REQUIRES(W_OK(P, sizeof(*P)) && inlen >= 1 && inlen <= 1024 && R_OK(in, inlen) && SEPARATE(P, in))
+REQUIRES(WR_OK(P, sizeof(*P)) && inlen >= 1 && inlen <= 1024 && RD_OK(in, inlen) && SEPARATE(P, in))
 ASSIGNS(OBJ_UPTO((uint8_t *)P, sizeof(*P)), G_import_last, G_import_calls, G_import_len)
 ENSURES(RET == 1 || RET == -1)
 ENSURES(G_import_last == RET && G_import_calls == OLD(G_import_calls) + 1 && G_import_len == inlen)
@@ -67,7 +67,7 @@ ENSURES(RET == 1 IMPLIES ((in[0] == 0x00 && inlen == 1 && VAL4(P->Z) == 0)
 
 /* SubjectPublicKey BIT STRING -> key: success means a 65-octet encoding was imported by the validating importer with result 1 */
 int sm2_public_key_from_der(SM2_KEY *key, const uint8_t **in, size_t *inlen)
-REQUIRES(W_OK(key, sizeof(*key)) && DER_RD_REQ(in, inlen))
+REQUIRES(WR_OK(key, sizeof(*key)) && DER_RD_REQ(in, inlen))
 ASSIGNS(OBJ_UPTO((uint8_t *)key, sizeof(*key)), *in, *inlen, G_import_last, G_import_calls, G_import_len)
 ENSURES(RET == 1 || RET == 0 || RET == -1)
 ENSURES(RET == 0 IMPLIES DER_RD_SAME(in, inlen))
@@ -77,7 +77,7 @@ ENSURES(RET == 1 IMPLIES V256(key->public_key.Z) == BV_MONT_ONE && VAL4(key->pri
 ;
 
 int sm2_z256_point_from_der(SM2_Z256_POINT *P, const uint8_t **in, size_t *inlen)
-REQUIRES(W_OK(P, sizeof(*P)) && DER_RD_REQ(in, inlen))
+REQUIRES(WR_OK(P, sizeof(*P)) && DER_RD_REQ(in, inlen))
 ASSIGNS(OBJ_UPTO((uint8_t *)P, sizeof(*P)), *in, *inlen, G_import_last, G_import_calls, G_import_len)
 ENSURES(RET == 1 || RET == 0 || RET == -1)
 ENSURES(RET == 0 IMPLIES DER_RD_SAME(in, inlen))
@@ -86,7 +86,7 @@ ENSURES(RET == 1 IMPLIES DER_RD_ADV(in, inlen) && G_import_calls == OLD(G_import
 ;
 
 int ec_named_curve_from_der(int *oid, const uint8_t **in, size_t *inlen)
-REQUIRES(W_OK(oid, sizeof(*oid)) && DER_RD_REQ(in, inlen))
+REQUIRES(WR_OK(oid, sizeof(*oid)) && DER_RD_REQ(in, inlen))
 ASSIGNS(*oid, *in, *inlen)
 ENSURES(RET == 1 || RET == 0 || RET == -1)
 ENSURES(RET == 0 IMPLIES DER_RD_SAME(in, inlen))
@@ -96,7 +96,7 @@ ENSURES(RET == 1 IMPLIES DER_RD_ADV(in, inlen))
 /* ECPrivateKey: C12 — scalar in [1, n-2]; a container whose embedded public key does not match its scalar is rejected;
    C14 — the SEQUENCE content is consumed entirely (no trailing bytes inside) */
 int sm2_private_key_from_der(SM2_KEY *key, const uint8_t **in, size_t *inlen)
-REQUIRES(W_OK(key, sizeof(*key)) && DER_RD_REQ(in, inlen))
+REQUIRES(WR_OK(key, sizeof(*key)) && DER_RD_REQ(in, inlen))
 ASSIGNS(OBJ_UPTO((uint8_t *)key, sizeof(*key)), *in, *inlen, G_mulg_calls, G_pkequ_last, G_pkequ_calls, G_import_last, G_import_calls, G_import_len)
 ENSURES(RET == 1 || RET == 0 || RET == -1)
 ENSURES(RET == 0 IMPLIES DER_RD_SAME(in, inlen))
@@ -106,7 +106,7 @@ ENSURES(RET == 1 IMPLIES G_pkequ_calls == OLD(G_pkequ_calls) + 1 && G_pkequ_last
 
 /* ECDH: success means the peer share was imported by the validating importer AND is a finite point */
 int sm2_ecdh(const SM2_KEY *key, const uint8_t *peer_public, size_t peer_public_len, uint8_t out[64])
-REQUIRES(R_OK(key, sizeof(*key)) && peer_public_len <= 1024 && (peer_public == NULL || R_OK(peer_public, peer_public_len)) && W_OK(out, 64))
+REQUIRES(RD_OK(key, sizeof(*key)) && peer_public_len <= 1024 && (peer_public == NULL || RD_OK(peer_public, peer_public_len)) && WR_OK(out, 64))
 ASSIGNS(OBJ_UPTO(out, 64), G_import_last, G_import_calls, G_import_len, G_isinf_last, G_isinf_calls)
 ENSURES(RET == 1 || RET == -1)
 ENSURES(RET == 1 IMPLIES G_import_calls == OLD(G_import_calls) + 1 && G_import_last == 1)
@@ -115,4 +115,25 @@ ENSURES(RET == 1 IMPLIES G_import_calls == OLD(G_import_calls) + 1 && G_import_l
 ENSURES(RET == 1 IMPLIES G_isinf_calls >= OLD(G_isinf_calls) + 1 && G_isinf_last == 0)
 ;
 
+
+/* C18 / C12: key generation — d is the LAST value drawn, in [1, n-2]; fail closed: on a failed draw no public key is derived */
+#ifdef CONTRACT_KEYGEN
+int sm2_z256_rand_range(sm2_z256_t r, const sm2_z256_t range)
+REQUIRES(WR_OK(r, 32) && RD_OK(range, 32))
+ASSIGNS(OBJ_UPTO(r, 32), OBJ_WHOLE(verif_k_drawn), verif_rand_calls, verif_rand_fail)
+ENSURES(RET == 1 || RET == 0 || RET == -1)
+ENSURES(verif_rand_calls == OLD(verif_rand_calls) + 1)
+ENSURES(RET == 1 IMPLIES VAL4(r) < VAL4(range) && VAL4(verif_k_drawn) == VAL4(r) && verif_rand_fail == OLD(verif_rand_fail))
+ENSURES(RET != 1 IMPLIES verif_rand_fail == 1)
+;
+int sm2_key_generate(SM2_KEY *key)
+REQUIRES(key == NULL || WR_OK(key, sizeof(*key)))
+ASSIGNS(key != NULL: OBJ_UPTO((uint8_t *)key, sizeof(*key)); OBJ_WHOLE(verif_k_drawn), verif_rand_calls, verif_rand_fail, G_mulg_calls)
+ENSURES(RET == 1 || RET == -1)
+ENSURES(RET == 1 IMPLIES verif_rand_fail == OLD(verif_rand_fail) && VAL4(key->private_key) == VAL4(verif_k_drawn)
+	&& VAL4(key->private_key) >= 1 && VAL4(key->private_key) < N_MINUS_1 && G_mulg_calls == OLD(G_mulg_calls) + 1)
+ENSURES(RET != 1 IMPLIES G_mulg_calls == OLD(G_mulg_calls))
+ENSURES((OLD(verif_rand_fail) == 0 && verif_rand_fail != 0) IMPLIES RET == -1)
+;
+#endif
 #endif
